@@ -30,7 +30,7 @@ RULE = ("scenario = world layout (11 layouts: output beside / nested in / equal 
         "elsewhere x history of 1-3 runs over {generate, init, build-script} with source switches (commands / other commands / "
         "events / no commands), zod/none/invalid mode, visualisation, force, configuration from flags / tauri.conf.json / "
         "typegen.json / defaults; plus a name sweep (every listed name alone and all together, as file and as directory, on "
-        "both entries) and a malformed stream (blocked or missing paths, broken JSON, directories under reserved names). "
+        "both entries; every systematic near-miss of every reserved name - stem.x.ts, stem.ts.x, x.stem.ts, stem-x.ts, stemx.ts, xstem.ts, case and extension variants, .tmp siblings of the written files, affix words alone and with other extensions - all together as files, as directories, nested and beside the output directory, on both entries, 3 runs each) and a malformed stream (blocked or missing paths, broken JSON, directories under reserved names). "
         "Non-trivial = at least one run changed the tree or ran against foreign files; distinct = distinct scenarios")
 TRUSTED = [
     "tools/props/c16_world.py: sandbox construction, snapshot/diff, python re-computation of the effective configuration (mirrors run_generate / load_configuration / detect_project) and of init's target path",
@@ -184,7 +184,7 @@ def reserved_py(n):
 
 
 def names_stream(rng, tier):
-    names = list(W.ALL_NAMES)
+    names = list(W.ALL_NAMES) + list(W.SYSTEMATIC)
     for _ in range(600 if tier == "quick" else 20000):
         names.append(W.random_name(rng))
     names = sorted(set(names))
